@@ -398,14 +398,15 @@ int reb_simulation_remove_particle(struct reb_simulation* const r, int index, in
                 }
             }
 
-            // reshuffle current_Ks
-	    unsigned int counter = 0;
-	    const int new_N = r->N-1;
+            // reshuffle current_Ks: drop row and column `index` of the N x N matrix.
+            // (Reads are never behind the writes: the old flat index is >= the new one.)
+	    const unsigned int old_N = r->N;
+	    const unsigned int new_N = r->N-1;
 	    for (unsigned int i = 0; i < new_N; i++){
-		if (i == index) counter += r->N;
+	        const unsigned int i_old = (i < (unsigned int)index) ? i : i+1;
 	        for (unsigned int j = 0; j < new_N; j++){
-		   if (j == index) counter++;
-		ri_trace->current_Ks[i*new_N+j] = ri_trace->current_Ks[i*new_N+j+counter];
+	            const unsigned int j_old = (j < (unsigned int)index) ? j : j+1;
+	            ri_trace->current_Ks[i*new_N+j] = ri_trace->current_Ks[i_old*old_N+j_old];
                 }
             }
             if (encounter_index<ri_trace->encounter_N_active){
